@@ -25,6 +25,7 @@ def plan(d):
     cmds = re.findall(r"cargo test[^`\n]*", readme)
     cmds = [c.strip() for c in cmds if "--workspace" not in c]
     cmds = [c for c in cmds if re.search(r"--test \w+|--lib \w+", c)]
+    cmds.sort(key=lambda c: 0 if re.search(r"demo|seed", c) else 1)
     place = None
     m = re.search(r"tests/(\w+)\.rs", readme)
     cmd = None
